@@ -14,7 +14,7 @@ RULE = ("A table of ~90 malformations (unknown sort direction/format; non-numeri
         "keep-unique, line-pattern, check-lua-pattern, check-ai-pattern on blocks with content; bad line-count expressions "
         "incl. overflow; affects without colon on a modified block; unknown severity on a violating block; Lua script path "
         "empty, blank, missing, a directory, an empty file, a file without validate; blank AI condition; missing or empty "
-        "API key) x placement on the first/middle/last block of the first/last file among 0-20 healthy blocks in 1-4 files "
+        "API key) x {alone on its block, next to a healthy rule of another kind on the same block} x placement on the first/middle/last block of the first/last file among 0-20 healthy blocks in 1-4 files "
         "x scan and diff mode. Expected: non-zero exit, no crash, an error text that names the file or the attribute. A "
         "healthy-only control of each tree must exit 0. A case is one (malformation, placement, mode) execution; "
         "non-trivial = the bad block is not the only block; distinct = hash of (files, mode).")
@@ -47,7 +47,7 @@ def malformations(sc):
     add("numeric-key:desc-last", [("keep-sorted", "desc"), ("keep-sorted-format", "numeric")], ["3", "2", "one"], mention=["one", "number"])
     add("numeric-key:with-pattern", [("keep-sorted", "asc"), ("keep-sorted-format", "numeric"), ("keep-sorted-pattern", "id: (?P<value>\\S+)")],
         ["id: 1", "id: two"], mention=["two", "number"])
-    for i, rx in enumerate(["(", "[a-", "*a", "(?P<value>", "a{2,1}", "\\", "(?P<value>a)(?P<value>b)"]):
+    for i, rx in enumerate(["(", "[a-", "*a", "(?P<value>", "a{2,1}", "\\", "(?P<value>a)(?P<value>b)", "a)|(b", ")("]):
         add("regex:keep-sorted-pattern:%d" % i, [("keep-sorted", "asc"), ("keep-sorted-pattern", rx)], mention=["keep-sorted-pattern"])
         add("regex:keep-unique:%d" % i, [("keep-unique", rx)], mention=["keep-unique"])
         add("regex:line-pattern:%d" % i, [("line-pattern", rx)], mention=["line-pattern"])
@@ -71,6 +71,23 @@ def malformations(sc):
     add("ai:missing-key", [("check-ai", "cond")], needs=["ai-nokey"], mention=["API key", "BLOCKWATCH_AI_API_KEY", "check-ai"])
     add("ai:empty-key", [("check-ai", "cond")], needs=["ai-emptykey"], mention=["API key", "BLOCKWATCH_AI_API_KEY", "check-ai"])
     return M
+
+
+COMPANIONS = [
+    [("keep-sorted", "asc"), ("keep-sorted-pattern", "ZZZ(?P<value>x)")],      # no line yields a key
+    [("keep-unique", "ZZZ(?P<value>x)")],
+    [("line-pattern", ".*")],
+    [("line-count", ">=0")],
+    [("affects", ":bad")],                                                      # refers to the block itself
+    [("check-lua", "@nil")],
+]
+
+
+def _kind(attr):
+    for k in ("keep-sorted", "keep-unique", "line-pattern", "line-count", "affects", "check-lua", "check-ai", "severity"):
+        if attr.startswith(k):
+            return k
+    return attr
 
 
 def _scripts():
@@ -139,7 +156,18 @@ def run_job(job, ctx):
         else:
             per[r.randrange(nfiles)].append(healthy_block(r, "h%d" % k, sc))
     which_file = 0 if many_lua else r.choice([0, nfiles - 1])
-    bad = scenario.SBlock("bad", [("name", "bad")] + list(m["attrs"]), list(m["lines"]), [])
+    # the bad block may also carry a healthy rule of another kind (one that cannot report anything on these lines): the malformed
+    # rule must be evaluated whatever else is detected on the same block
+    bad_attrs = list(m["attrs"])
+    kinds_used = {_kind(k) for k, _ in bad_attrs}
+    companion = None
+    if r.random() < 0.5:
+        cands = [c for c in COMPANIONS if _kind(c[0][0]) not in kinds_used and not (c[0][0] == "check-lua" and "check-lua" in kinds_used)]
+        if cands:
+            companion = r.choice(cands)
+            comp = [(k, (sc["nil"] if v == "@nil" else v)) for k, v in companion]
+            bad_attrs = (comp + bad_attrs) if r.random() < 0.5 else (bad_attrs + comp)
+    bad = scenario.SBlock("bad", [("name", "bad")] + bad_attrs, list(m["lines"]), [])
     pos = r.choice(["first", "middle", "last"])
     lst = per[which_file]
     idx = 0 if pos == "first" else len(lst) if pos == "last" else len(lst) // 2
@@ -184,7 +212,7 @@ def run_job(job, ctx):
     key = h([files, mode, sorted(needs)])
     nontrivial = nhealthy >= 1
     sets = {"malformation": [m["id"].split(":")[0]], "placement": ["%s/%s-file" % (pos, "first" if which_file == 0 else "last")],
-            "mode": [mode], "malformation_id": [m["id"]]}
+            "mode": [mode], "malformation_id": [m["id"]], "companion_rule": [companion[0][0] if companion else "none"]}
     out = []
     if ctrl_files:
         c = execute(ctrl_files)
